@@ -289,6 +289,13 @@ func features(p *basmgen.Program) []string {
 	if len(p.CPs) > 1 {
 		f["multi-cp"] = true
 	}
+	if p.GlobalIOMode != "" {
+		if (p.GlobalIOMode == "sync") == p.Sync {
+			f["global-iomode-agrees"] = true
+		} else {
+			f["global-iomode-differs-from-the-sections"] = true
+		}
+	}
 	if entryNotFirst(p) {
 		f["entry-not-first"] = true
 	}
